@@ -197,6 +197,21 @@ def unitOk (objs : List Obj) (baseS baseE : List Nat) (pS pE : List Poly) (const
 def atomOrigins (units : List EUnit) : List Nat :=
   units.filterMap fun u => if (emKind u).isNone then u.origin else none
 
+/-- every input of a source object refers to an object created earlier (so `denote` of the
+    source program is a well-founded evaluation, no node reads a not-yet-computed value) -/
+def srcBackward (objs : List Obj) : Bool :=
+  objs.zipIdx.all fun p => p.1.inputs.all fun i =>
+    match i with
+    | .out o' _ _ => decide (o' < p.2)
+    | _ => true
+
+/-- every input of an emitted unit is a constant in range or an existing output of a unit
+    placed strictly earlier -/
+def emBackward (nConsts : Nat) (units : List EUnit) : Bool :=
+  units.zipIdx.all fun p => p.1.inputs.all fun a =>
+    if a.1 < 0 then decide (a.2 < nConsts)
+    else decide (a.1.toNat < p.2) && decide (a.2 < (units[a.1.toNat]?.map (·.nOut)).getD 0)
+
 /-- `objs`: the object heap after the constructor calls (before optimisation);
     `must`: the ids of the side-effecting atom-like objects of the definition
     (`_children` before optimisation, minus those whose `_optimize_graph` may drop them) -/
@@ -207,7 +222,8 @@ def validate (objs : List Obj) (must : List Nat) (consts : List Rat) (units : Li
     let pE := polys ep
     let baseS := bases (objs.map srcCount)
     let baseE := bases (units.map emCount)
-    units.all (unitOk objs baseS baseE pS pE consts)
+    srcBackward objs && emBackward consts.length units
+      && units.all (unitOk objs baseS baseE pS pE consts)
       && (atomOrigins units).Nodup
       && must.all fun o => (atomOrigins units).contains o
   | _, _ => false
